@@ -1,6 +1,7 @@
 use crate::engine::Run;
 use serde_json::Value;
 
+pub mod c01;
 pub mod c02;
 pub mod c06;
 pub mod c07;
@@ -22,6 +23,7 @@ pub type ReplayFn = fn(&Run, &str, &Value) -> Option<bool>;
 
 /// (id, evidence level, run, replay)
 pub const REGISTRY: &[(&str, &str, RunFn, ReplayFn)] = &[
+    ("C01", "exploration", c01::run, c01::replay),
     ("C02", "exploration", c02::run, c02::replay),
     ("C06", "fault_enumeration", c06::run, c06::replay),
     ("C07", "fault_enumeration", c07::run, c07::replay),
